@@ -405,6 +405,21 @@ def commit (s : SDB) : Option SDB :=
 
 end SDB
 
+/-! ### the specification of reads -/
+
+/-- What a storage key reads as: the latest surviving buffered write (a delete reads as absent),
+else the trie. -/
+def Storage.view (st : Storage) (k : Nat) : SVal :=
+  match lastWrite st.buf.entries k with
+  | some v => v
+  | none => st.trie.get k
+
+/-- What an account reads as: the latest surviving buffered state, else the trie. -/
+def SDB.view (s : SDB) (a : Nat) : Option AVal :=
+  match lastWrite s.buf.entries a with
+  | some v => some v
+  | none => s.trie.get a
+
 /-! ### histories of a block's working state (used by the statements of `Props/C12`) -/
 
 /-- `Storage` after a list of `SetData`/`DeleteData` calls (`some v` / `none`). -/
